@@ -9,7 +9,7 @@ CLAIMED = {
  'C01': ('exploration', 'seeded search over graphs, edit/build histories (its own and those of the C02/C03/C13/C14/C17 generators) and process schedules of the real redo tree; every successful build command is compared with a from-scratch evaluator', 'oracle = small DSL evaluator; scripts are simdo programs whose output is a pure function of rule and dependency contents; flags are declared dependencies'),
  'C02': ('exploration', 'seeded search over histories (edits, dropped dependencies, rule shadowing, removals, repeats) and schedules; the scripts run by each command are compared with the must/may/must-not sets of the SeenModel reference', 'reference model written from the property text (what each target consumed at its last successful build vs what those inputs are now); may-run zone = plain dependency rebuilt to identical bytes'),
  'C03': ('exploration', 'seeded search over checksummed chains of depth 1-3 with noise, always and removal histories on the direct and the out-of-band path; SeenModel must/may sets plus from-scratch freshness', 'stamp masks are not generated (a mask that hides bytes dependents read contradicts C01 by construction)'),
- 'C04': ('fault_enumeration', 'the finite cross product 11 script behaviours (incl. a dangling-symlink $3) x 6 output sizes x 3 prior states (198 cells) is enumerated completely, every cell under several seeded schedules, half of them with the script killed at a walked yield, a third with a stale temp file left by a killed run; per-step watcher of every state of the target a reader can see', 'a script that writes $1 itself changes the target by its own doing; redo is only held to status 206 and to not touching it further'),
+ 'C04': ('fault_enumeration', 'the finite cross product 12 script behaviours (incl. a dangling-symlink $3 and a directory $3) x 6 output sizes x 3 prior states (216 cells) is enumerated completely, every cell under several seeded schedules, half of them with the script killed at a walked yield, a third with a stale temp file left by a killed run; per-step watcher of every state of the target a reader can see', 'a script that writes $1 itself changes the target by its own doing; redo is only held to status 206 and to not touching it further'),
  'C05': ('exploration', 'seeded search over failing subsets, command-line orders, -k/-j and schedules across fail/repeat/repair histories', 'failure cone computed by the from-scratch evaluator; flags are declared dependencies'),
  'C06': ('exploration', 'seeded search over 2-4 concurrent invocations on fresh and on previously built projects, late starters, kills of one process or of a command\'s process group (crash plans and timed aborts), invocations that end with an internal error while their jobs run, invocations whose output reader goes away (cmd | head); trace invariants over the totally ordered event log', "lock byte of a job inferred from the builder's own fcntl calls at the libc seam; the orphan of a SIGKILLed builder is a known finding"),
  'C07': ('exploration', 'seeded search over -j, --shuffle, script durations and schedules; differential against the serial -j1 replay of the same history plus the from-scratch evaluator', 'structural DB comparison ignores run ids and stamps'),
@@ -45,7 +45,7 @@ m = {
  }],
  "checks": [],
  "not_applicable": [],
- "notes": "Every check: ./check <ID> --tier quick|thorough; exit 0 held, 1 VIOLATION (replay file), 2 harness error. VERIF_SEED honoured. Repaired defects (fixed: lines) and known findings (JSON lines) are in known_findings.txt; genuine defects of /repo were repaired in 27 unguarded `fix:` commits; no hook commits exist (hooks.source_commits is empty).",
+ "notes": "Every check: ./check <ID> --tier quick|thorough; exit 0 held, 1 VIOLATION (replay file), 2 harness error. VERIF_SEED honoured. Repaired defects (fixed: lines) and known findings (JSON lines) are in known_findings.txt; genuine defects of /repo were repaired in 28 unguarded `fix:` commits; no hook commits exist (hooks.source_commits is empty).",
 }
 for p in props:
     i = p['id']
